@@ -307,6 +307,44 @@ def interleaved_worker(args):
     return res
 
 
+def churn_worker(args):
+    """Language objects of one target created and released one after the other, each with another stropping configuration (what a
+    program that generates for several configurations does): every answer belongs to the configuration of the object that gave it."""
+    lname, seed, rounds = args
+    import gc
+    r = random.Random("c09c/%s/%s" % (seed, lname))
+    vs = variants_of(lname)
+    res = dict(lang=lname, calls=0, refs=[], refmech=collections.Counter(), objects=0)
+    probes = ["sensorq", "alphaq", "mainq", "setupq", "ab", "MYQ_A", "allocator", "if", "x y", "_Ab", "con", "aqq", "Fooq", "zz", "xa", "int8_t", "EA", "strx", "1a", "a__"]
+    for k in range(rounds):
+        vname, ov = vs[r.randrange(len(vs))]
+        try:
+            lang = make_lang(lname, ov)
+        except Exception as e:
+            return dict(error="cannot build language %s/%s: %r" % (lname, vname, e))
+        pred = Predicate(lang)
+        res["objects"] += 1
+        for s_ in probes:
+            for idt in ("any", "macro", "function", "path"):
+                res["calls"] += 1
+                try:
+                    tok = lang.filter_id(s_, idt)
+                except Exception:
+                    continue
+                why = pred.why_bad(tok, idt)
+                if why is None and pred.why_bad(s_, idt) is None and not pred.needs_encoding(s_, idt) and tok != s_:
+                    why = "valid unreserved input was changed"
+                if why:
+                    res["refmech"][why.split(" of ")[0][:40]] += 1
+                    if len(res["refs"]) < 8:
+                        res["refs"].append(("object %d of %s created in this process (configuration %s) returned token %r for input %r type %s: %s" % (k, lname, vname, tok, s_, idt, why),
+                                            dict(lang=lname, variant=vname, round=k, input=s_, id_type=idt, token=tok, why=why)))
+        del lang, pred
+        if k % 3 == 0:
+            gc.collect()
+    return res
+
+
 def safe_sample(res):
     out = []
     for s, t in res.get("sample", []):
@@ -381,10 +419,12 @@ def cross_process(ctx, combos, k, nrand, nshards, digests0):
     procs = []
     # each child uses another hash seed AND another order of configurations: a result that depends on which language /
     # configuration was used earlier in the process (leaked state) shows up as a digest mismatch
+    parts = 4    # the combinations are dealt to several children per (hash seed, order) so that they run side by side
     for hs, order in (("1", "given"), ("12345", "reversed"), ("random", "shuffled")):
-        code = CHILD % dict(verif=common.VERIF, combos=combos, k=k, seed=ctx.seed, nrand=nrand, nshards=nshards, order=order)
-        procs.append((hs, subprocess.Popen([common.PY, "-c", code], env=common.child_env(PYTHONHASHSEED=hs),
-                                           stdout=subprocess.PIPE, stderr=subprocess.PIPE, text=True)))
+        for part in range(parts):
+            code = CHILD % dict(verif=common.VERIF, combos=combos[part::parts], k=k, seed=ctx.seed, nrand=nrand, nshards=nshards, order=order)
+            procs.append((hs, subprocess.Popen([common.PY, "-c", code], env=common.child_env(PYTHONHASHSEED=hs),
+                                               stdout=subprocess.PIPE, stderr=subprocess.PIPE, text=True)))
     for hs, p in procs:
         try:
             out, err = p.communicate(timeout=1800)
@@ -412,7 +452,10 @@ def run(ctx):
                 "distinct = distinct returned tokens (non-trivial = token differs from its input, i.e. stropping/encoding acted)" % (k, len(ALPH), nrand))
     combos = [(l, v, ov) for l in ("c", "cpp", "py") for v, ov in variants_of(l)]
     jobs = [(l, v, ov, k, ctx.seed, nrand, s, nshards) for (l, v, ov) in combos for s in range(nshards)]
+    import time
+    t0 = time.time()
     results = common.pmap(shard_worker, jobs)
+    ctx.extra.setdefault("phase_seconds", {})["shards"] = round(time.time() - t0, 1); t0 = time.time()
     tokens_by_lang = collections.defaultdict(set)
     digests0 = {}
     changed_tokens = set()
@@ -440,7 +483,7 @@ def run(ctx):
     for l, toks in tokens_by_lang.items():
         ctx.distinct_many((l, t) for t in toks)
         ctx.count("distinct_tokens[%s]" % l, len(toks))
-    for res in common.pmap(interleaved_worker, [(l, ctx.seed, ctx.pick(300, 5000)) for l in ("c", "cpp", "py")]):
+    for res in common.pmap(interleaved_worker, [(l, ctx.seed, ctx.pick(60, 5000)) for l in ("c", "cpp", "py")]):
         if "error" in res:
             ctx.inconclusive_because(res["error"])
             continue
@@ -451,8 +494,22 @@ def run(ctx):
             ctx.count("refuted[interleaved: %s]" % kx, v)
         for what, wit in res["refs"]:
             ctx.refute(None, what, wit)
+    ctx.extra["phase_seconds"]["interleaved"] = round(time.time() - t0, 1); t0 = time.time()
+    for res in common.pmap(churn_worker, [(l, ctx.seed * 10 + j, ctx.pick(100, 1500)) for l in ("c", "cpp", "py") for j in range(2)]):
+        if "error" in res:
+            ctx.inconclusive_because(res["error"])
+            continue
+        ctx.count("evaluations", res["calls"])
+        ctx.count("language_objects_created_and_released", res["objects"])
+        for kx, v in res["refmech"].items():
+            ctx.count("refuted[churn: %s]" % kx, v)
+        for what, wit in res["refs"]:
+            ctx.refute(None, what, wit)
+    ctx.extra["phase_seconds"]["churn"] = round(time.time() - t0, 1); t0 = time.time()
     toolchain_check(ctx, tokens_by_lang)
+    ctx.extra["phase_seconds"]["toolchain"] = round(time.time() - t0, 1); t0 = time.time()
     cross_process(ctx, combos, k, nrand, nshards, digests0)
+    ctx.extra["phase_seconds"]["cross_process"] = round(time.time() - t0, 1)
     ctx.sample({"input": "if", "c/any": "_if", "py/any": "if_"})
     ctx.extra["exhaustive_bounds"] = "all strings of length 1..%d over %r" % (k, ALPH)
     ctx.require("returned", 50000)
@@ -461,6 +518,7 @@ def run(ctx):
     ctx.require("handler[cpp._handle_stropping_or_encoding_failure]", 100)
     ctx.require("toolchain_tokens", 1000)
     ctx.require("interleaved_configuration_calls", 10000)
+    ctx.require("language_objects_created_and_released", 300)
     ctx.require("cross_process_comparisons", len(combos) * 3)
     ctx.assumptions += ["'any' is judged against the union of all types' rules (documented)", "raising any exception is acceptable",
                         "C/C++ validity: ASCII [A-Za-z_][A-Za-z0-9_]* (what the configured encoding rules aim at); Python: str.isidentifier()"]
